@@ -17,7 +17,7 @@ Record interop_entry := mk_interop {
 Record native_entry := mk_native {
   nm_contract : string;    (* ContractMD.Name *)
   nm_name : string;        (* MD.Name *)
-  nm_arity : N;            (* len(MD.Parameters) *)
+  nm_arity : N;            (* len(MD.Params (the declared argument list)) *)
   nm_flags : N;            (* RequiredFlags *)
   nm_safe : bool;          (* MD.Safe, as published in the native contract's manifest *)
   nm_void : bool           (* MD.ReturnType = Void *)
